@@ -69,9 +69,11 @@ class Engine:
         self.mode = mode  # 'real' (symbolic, exact reals) | 'float' (concrete python floats)
         self.solver = z3.Solver()
         self.solver.set("timeout", int(os.environ.get("M2S_FEAS_TIMEOUT_MS", "400")))
+        self.solver.set("rlimit", int(os.environ.get("M2S_FEAS_RLIMIT", "300000")))
         self.max_paths = max_paths
         self.loop_bound = loop_bound
         self.merge = merge
+        self.feas_unknown_budget = int(os.environ.get("M2S_FEAS_UNKNOWN_BUDGET", "3"))
         self.nfid = 0
         self.nheap = 0
         self.nfresh = 0
@@ -110,6 +112,11 @@ class Engine:
 
     # ------------------------------------------------------------ solver
     def feasible(self, st, cond=None):
+        # once the solver has answered `unknown` a few times on this harness (hard nonlinear path conditions),
+        # stop asking: exploring a possibly infeasible path is sound (its obligations carry the path condition)
+        if self.stats.get("feas_unknown", 0) >= self.feas_unknown_budget:
+            self.stats["feas_assumed"] = self.stats.get("feas_assumed", 0) + 1
+            return True
         cs = list(st.pc)
         if cond is not None:
             cs.append(cond)
@@ -891,7 +898,10 @@ class Engine:
         if name is None:
             raise Unsupported("call to unmodelled function: " + mirmod.strip_generics(callee)[:160])
         if name in self.stubs:
-            return [Outcome(s, "ret", v) for (s, v) in self.stubs[name](self, st, args)]
+            r = self.stubs[name](self, st, args)
+            if r is not None:  # None: the stub declines this call site, run the real body
+                self.stats["stub_calls"] = self.stats.get("stub_calls", 0) + 1
+                return [Outcome(s, "ret", v) for (s, v) in r]
         return self.exec_body(st, self.mir.bodies[name], args)
 
     # ------------------------------------------------------------ body execution
